@@ -363,6 +363,16 @@ theorem mapping_sources :
     allAgree listOffsets_RequestPartition listRequestPartition = true ∧ allAgree listOffsets_Request listRequest = true ∧
     allAgree listOffsets_PartitionOffsets listPartitionOffsets = true := by decide
 
+
+/-- Client.ListOffsets: the request loop marks FirstOffset / LastOffset as asked (0) for the two sentinel timestamps,
+and the response loop stores an entry's offset in FirstOffset / LastOffset / Offsets[offset] ← its timestamp by the
+same case analysis — the case tables regenerated from listoffset.go are the ones `clientInit` / `clientStep` model -/
+theorem listOffsets_switch_shape :
+    KV.Gen.Mappings.listOffsetsSwitches =
+      [["FirstOffset|_.FirstOffset|0", "LastOffset|_.LastOffset|0"],
+       ["FirstOffset|_.FirstOffset|_.Offset", "LastOffset|_.LastOffset|_.Offset",
+        "default|_.Offsets[_.Offset]|makeTime(_.Timestamp)"]] := by decide
+
 end fieldmaps
 
 /-! ## field mappings (`mapping_exact`) -/
